@@ -31,6 +31,15 @@ CHECKS = {
              "tracked client's batching mode. Sampling of a few-thousand-combination space x timing.",
         note="Trusts: SimLoop; the judge of a 'well-formed answer' is an independent structural check; malformed/error answers may raise any exception.",
         technique=TECH + "; ordering/absence oracle over the recorded write history"),
+    "C04": dict(
+        level="exploration", ref="DESIGN.md section 5 C04",
+        text="A real MCPServer/ProtocolHandler + session store is a server node; 1..3 concurrent clients (the real send_initialize with "
+             "generated supported lists, and raw clients for malformed / non-string / absent versions) talk to it over an in-memory network "
+             "with generated latencies, messages serialised and re-parsed, so handshakes interleave. Oracle: every initialize answer carries "
+             "a supported version (the requested one when supported), the session stored under the id returned by that call records the "
+             "version answered to that client, and each real client ends agreed on a mutually supported version or with VersionMismatchError.",
+        note="Trusts: SimLoop; the in-memory network; strata sample the complement of the supported set (it cannot be exhausted).",
+        technique=TECH + "; multi-client handshake interleaving, invariant on every answer + session record"),
     "C05": dict(
         level="exploration", ref="DESIGN.md section 5 C05",
         text="The real StdioClient reader runs on a FakeProcess whose stdout is cut into short reads: every single cut position of fixed "
@@ -48,6 +57,15 @@ CHECKS = {
              "whole-line, in-order, content-equal, nothing for unserialisable items, stdin closed after the stream is closed and drained.",
         note="Trusts: the modelled drain/high-water semantics of asyncio's StreamWriter; fault family is judged on whole lines only.",
         technique=TECH + "; back-pressure and child-death injection at the process seam, reference-encoder oracle"),
+    "C08": dict(
+        level="exploration", ref="DESIGN.md section 5 C08",
+        text="Requests and notifications over core, tool/resource, every standard MCP notification name and random methods, params of every "
+             "JSON shape and ids 0/negative/huge/strings, are dispatched by 1..3 simulated clients (serially or one task per message) to the real "
+             "MCPServer/ProtocolHandler whose tool/resource/custom handlers misbehave per call (raise, return nonsense, sleep first, raise after "
+             "sleeping). Oracle: conservation - one response per request id (value and type) of the right class, none per notification, "
+             "handle_message never raises, the printed line parses back to the id. A request to notifications/initialized is known finding F-C08-1.",
+        note="Trusts: handler fault matrix is representative; the handler keeps no cross-request state, so schedules add little (said in DESIGN.md).",
+        technique=TECH + "; handler fault injection (buggify), conservation oracle over the dispatch history"),
     "C13": dict(
         level="exploration", ref="DESIGN.md section 5 C13",
         text="The real stdio reader + BatchProcessor run on a FakeProcess; the version comes from a simulated handshake or the setter, drawn "
@@ -83,6 +101,15 @@ CHECKS = {
              "architectural lost-response defect is recorded as known finding F-C18-1 by its cause signature, other causes still alarm.",
         note="Trusts: SimLoop FIFO wake-up order equals anyio's; answers are only sent after the peer saw the request.",
         technique=TECH + "; per-caller outcome vs consumption-log oracle"),
+    "C19": dict(
+        level="exploration", ref="DESIGN.md section 5 C19",
+        text="Operation sequences (quick <= 14, thorough <= 200) over the real InMemorySessionManager and ProtocolHandler run under a simulated, "
+             "skewable wall clock (idle times placed at max_age-eps / exactly max_age / max_age+eps, zero advance, year jumps, backward skew) "
+             "with slow handlers overlapping other operations; a reference dict is stepped in lock-step and the full state is compared after "
+             "every operation (return values, expiry of exactly the sessions idle longer than the limit, listing is a copy, one session per "
+             "successful initialize, unique ids).",
+        note="Trusts: the clock seam (module attribute `time`), seeded uuid4.",
+        technique=TECH + "; clock skew/jump injection, lock-step reference-model oracle"),
     "C20": dict(
         level="exploration", ref="DESIGN.md section 5 C20",
         text="Generated config files (1..4 servers, awkward args, env absent/empty/values, timeout shapes, extra keys) and the malformed "
